@@ -1137,3 +1137,46 @@ Proof.
   destruct (match v_language v2 with Some l0 => Some l0 | None => _ end); [|discriminate].
   destruct (match v_output v2 with Some o => Some o | None => _ end); discriminate.
 Qed.
+
+(* ================================================================== Part 5: the re-synthesised command line holds every listed argument *)
+
+Lemma get_list_in_command T E p d w :
+  is_list_dest d = true -> In w (get_list d (p_lists p)) -> In w (compile_command T E p).
+Proof.
+  intros Hd Hw. unfold compile_command.
+  apply in_or_app; right. apply in_or_app; right.
+  destruct d; try discriminate; cbn [get_list] in Hw.
+  - (* common *) do 3 (apply in_or_app; right). apply in_or_app; left. exact Hw.
+  - (* unhashed *) do 2 (apply in_or_app; right). apply in_or_app; left. exact Hw.
+  - (* arch *) do 4 (apply in_or_app; right). apply in_or_app; left. exact Hw.
+  - (* pre *) apply in_or_app; left. exact Hw.
+  - (* dep *) apply in_or_app; right. apply in_or_app; left. exact Hw.
+Qed.
+
+Theorem command_complete T E argv p :
+  parse_arguments T E argv = ROk p ->
+  exists al xl output,
+    tokens_of T (sel_of E) (dd_of E) (e_files E) argv = (al, TEnd) /\
+    tokens_of T SelMerged None (e_files E) (xvals al) = (xl, TEnd) /\
+    (* every word of every listed argument, in its normalised rendering, is on the command line ... *)
+    (forall a w, In a al -> is_list_dest (dest_of T a) = true -> In w (render_norm a) -> In w (compile_command T E p)) /\
+    (* ... every -Xclang argument too, each word behind its own -Xclang ... *)
+    (forall a d w, In a xl -> x_dest_of T a = Some d -> is_list_dest d = true -> In w (x_words a) ->
+                   In w (compile_command T E p)) /\
+    (* ... and the dedicated kinds: the compilation flag, `-o` with the output, the input as the last word *)
+    In (p_cflag p) (compile_command T E p) /\ In output (compile_command T E p) /\
+    last (compile_command T E p) [] = p_input p /\ inputs al = [p_input p].
+Proof.
+  intros H. destruct (no_argument_lost _ _ _ _ H) as [al [xl [output [Htok [Hx A]]]]].
+  exists al, xl, output. split; [exact Htok|]. split; [exact Hx|].
+  destruct A as [Hl Hxl Hin Hcf Hobj Hout Hlang].
+  split; [|split; [|split; [|split; [|split]]]].
+  - intros a w Ha Hd Hw. apply (get_list_in_command T E p (dest_of T a) w Hd).
+    rewrite (Hl _ Hd). apply in_or_app; left. eapply main_part_In; [exact Ha | reflexivity | exact Hw].
+  - intros a d w Ha Hxd Hd Hw. apply (get_list_in_command T E p d w Hd).
+    rewrite (Hl _ Hd). apply in_or_app; right. apply in_or_app; left. eapply x_part_In; eassumption.
+  - unfold compile_command. apply in_or_app; right. apply in_or_app; left. left. reflexivity.
+  - unfold compile_command. rewrite Hobj. apply in_or_app; right. apply in_or_app; left. right. right. left. reflexivity.
+  - unfold compile_command. rewrite !app_assoc. apply last_last.
+  - exact Hin.
+Qed.
